@@ -341,8 +341,8 @@ FEATURES = {
                       "mon.write(guarded(ta))\nwhile True:\n    try:\n        lv = ta + tb\n        mon.write(lv)\n    except Exception as e3:\n        lw = 5\n        mon.write(lw)\n    sleep(10)\n",
     # expressions nested close to / beyond what the interpreter's recursion limit allows (machine-generated): whatever the answer
     # is, it is the same in every process and leaves the interpreter as it was
-    "rej-deep-condition-1500": _FH + "led = Led(5)\nif " + " + ".join(["1"] * 1500) + " > 0:\n    led.on()\n",
-    "rej-deep-condition-2400": _FH + "led = Led(5)\nif " + " + ".join(["1"] * 2400) + " > 0:\n    led.on()\n",
+    "deep-condition-1500": _FH + "led = Led(5)\nif " + " + ".join(["1"] * 1500) + " > 0:\n    led.on()\n",
+    "deep-condition-2400": _FH + "led = Led(5)\nif " + " + ".join(["1"] * 2400) + " > 0:\n    led.on()\n",
     "feat-deep-condition-300": _FH + "led = Led(5)\nif " + " + ".join(["1"] * 300) + " > 0:\n    led.on()\n",
     "merge-many-devices": _FH + "la = Led(3)\nlb = Led(4)\nlc = Led(5)\nsa = Servo(9)\nsb = Servo(10)\nra = RGBLed(6, 7, 8)\nba = Button(11)\nbb = Button(12)\nbz = Buzzer(2)\nwhile True:\n    la.toggle()\n    lb.on()\n    lc.off()\n    sa.write(10)\n    sb.write(20)\n    ra.set_color(1, 2, 3)\n    bz.beep(440, 5, 5, 2)\n    mon.write(ba.is_pressed())\n    mon.write(bb.is_pressed())\n",
 }
@@ -351,7 +351,7 @@ FEATURE_GROUPS = [["feat-swap-loop", "rej-swap-then-break", "feat-swap-for"], ["
                   ["feat-swap-many", "rej-swap-loop-then-align", "feat-swap-loop"], ["feat-swap-for", "rej-conflict-after-defs", "feat-swap-fn"],
                   ["merge-ret-lists", "merge-ret-num", "rej-ret-str-num"], ["merge-list-elems", "merge-ternary", "merge-call-sites"],
                   ["merge-many-devices", "merge-ret-lists", "rej-swap-then-break"],
-                  ["feat-builtin-const", "feat-loop-promotions", "feat-loop-promotions-rev"], ["feat-lookalike-names", "merge-many-devices", "feat-lookalike-names"], ["feat-try-hoist", "feat-swap-loop", "feat-loop-promotions"], ["rej-deep-condition-1500", "feat-deep-condition-300", "rej-deep-condition-2400"], ["feat-builtin-const", "merge-ternary", "feat-swap-loop"]]
+                  ["feat-builtin-const", "feat-loop-promotions", "feat-loop-promotions-rev"], ["feat-lookalike-names", "merge-many-devices", "feat-lookalike-names"], ["feat-try-hoist", "feat-swap-loop", "feat-loop-promotions"], ["deep-condition-1500", "feat-deep-condition-300", "deep-condition-2400"], ["feat-builtin-const", "merge-ternary", "feat-swap-loop"]]
 
 
 def _twin(src: str, rng: random.Random) -> str | None:
